@@ -429,6 +429,9 @@ def run(ctx: Ctx):
     r_getter_history(ctx, model, prop="C01", rule="R-adsorbate")
     # ... and in the unit asked for, on every route of the getter (backend value, stored property when the backend cannot answer): the
     # relative <-> absolute factor is Adsorbate.saturation_pressure(temp, unit=...) (getter outcome table shared with C20)
+    # ... after ANY other query on the same adsorbate (an enthalpy look-up between two conversions): getter sequences shared with C04 R-state
+    from .C04 import r_state
+    r_state(ctx, model, prop="C01", rule="R-adsorbate")
     from .C20 import r_getters
     r_getters(ctx, model, prop="C01", rule="R-adsorbate", only=("saturation_pressure", "liquid_density", "gas_density", "liquid_molar_density",
                                                               "gas_molar_density", "molar_mass"))
